@@ -70,6 +70,12 @@ def corpus_scenarios():
         S.append(scenario("clock%+d" % q, [blk(1, 0, q, rel="now")], [1, 1]))
         S.append(scenario("clock%+d-orphan" % q, [blk(1, 0, 1), blk(2, 1, q, rel="now")], [2, 1, 2]))
     S.append(scenario("clock+2-last-ms", [blk(1, 0, 1, rel="now", off=1000), blk(2, 0, 2, rel="now", off=1)], [1, 2]))
+    # slot k is ((k-1)*iv, k*iv] ms: the last millisecond still belongs to the owner of k, the first one
+    # already to the owner of k; the neighbours' owners are refused there
+    S.append(scenario("slot-last-ms-owner", [blk(1, 0, 1, off=1000), blk(2, 1, 2, off=1)], [1, 2]))
+    S.append(scenario("slot-last-ms-next-owner", [blk(1, 0, 1, off=1000, delta=1)], [1]))
+    S.append(scenario("slot-first-ms-prev-owner", [blk(1, 0, 2, off=1, delta=-1)], [1]))
+    S.append(scenario("slot-last-ms-next-owner-orphan", [blk(1, 0, 1), blk(2, 1, 2, off=1000, delta=1)], [2, 1]))
     # a future block is refused but not remembered: after two slots it is accepted
     S.append(scenario("future-then-wait", [blk(1, 0, 2, rel="now")], [1, "W", 1, "W", 1]))
     S.append(scenario("future-orphan-then-wait", [blk(1, 0, 1), blk(2, 1, 2, rel="now")], [2, "W", 2, 1]))
@@ -140,7 +146,8 @@ def random_scenario(rng, idx, fixed=False):
             parent = rng.randrange(0, i)
         d = depth[parent] + 1
         depth[i] = d
-        b = blk(i, parent, d + rng.randrange(0, 2), off=1 + rng.randrange(0, iv * 1000))
+        off = rng.choice([1, iv * 1000]) if rng.random() < 0.12 else 1 + rng.randrange(0, iv * 1000)
+        b = blk(i, parent, d + rng.randrange(0, 2), off=off)
         if not fixed and rng.random() < 0.15:
             cl[i] = rng.sample(range(NKEYS), rng.choice([size, size, rng.randrange(1, 6)]))
         if rng.random() < 0.4:
